@@ -538,6 +538,20 @@ def hard_events(ctx, rnd, quick):
         for dev in ("stack", "pop", "bubble", "quick"):
             add({"op": "Pass", "dev": dev, "p": other})
     ctx.note("questions_abandoned_half_way", nint)
+    # 5c. permutations of 1100 entries with long monotone stretches: one pass of every device (the device of Trace_C12 is run
+    #     on them step by step); quick sort is only required to return a permutation there (its definition is cubic for TLC)
+    n = 1100 if quick else 1500
+    inc, dec = list(range(n)), list(range(n - 1, -1, -1))
+    longs = [inc, dec, inc[1:] + [0], [n - 1] + inc[:-1], inc[: n // 2] + dec[: n - n // 2]]
+    for q in longs[: (3 if quick else 5)]:
+        for dev in ("stack", "bubble", "pop"):
+            add({"op": "Pass", "dev": dev, "p": q})
+        st, got = util.call(Perm(q).quick_sort)
+        if st == "raise" or sorted(got) != inc:
+            ctx.violation({"kind": "long permutation", "n": n, "first": q[:3], "dev": "quick"}, "NoException", "a permutation of the same length", got if st == "raise" else "not a permutation")
+    for q in longs[:2]:
+        for dev in ("stack", "bubble"):
+            add({"op": "Sortable", "dev": dev, "p": q})
     # 6. dihedral_group: keyword form, asked twice, two lazy listings alive at once
     for n in range(0, 11):
         add({"op": "Group", "n": n, "form": "kw"})
